@@ -94,7 +94,11 @@ GenDictOps(Sx) ==
         {[m |-> "setitem", k |-> gs(<<"k">>), v |-> IntV(1)], [m |-> "setitem", k |-> gs(<<"k">>), v |-> gs(<<"x">>)],
          [m |-> "update", kv |-> << <<gs(<<"a">>), IntV(1)>>, <<gs(<<"b">>), gs(<<"x">>)>> >>],
          [m |-> "ior", kv |-> << <<gs(<<"c">>), gs(<<"3">>)>> >>], [m |-> "setdefault", k |-> gs(<<"k">>), v |-> IntV(5)],
-         [m |-> "pop", k |-> gs(<<"K">>)], [m |-> "pop", k |-> gs(<<"k">>)], [m |-> "clear"]}]
+         [m |-> "pop", k |-> gs(<<"K">>)], [m |-> "pop", k |-> gs(<<"k">>)], [m |-> "clear"]}
+        \cup (IF FieldOf(SchemaAt(Sx, pk[1]), pk[2]).keyf.kind = "nofield"
+              THEN {[m |-> "setitem", k |-> TupleV(<<IntV(3)>>), v |-> gs(<<"x">>)], [m |-> "setitem", k |-> TupleV(<<IntV(3), IntV(4)>>), v |-> IntV(-1)],
+                    [m |-> "setitem", k |-> TupleV(<<IntV(3)>>), v |-> IntV(2)], [m |-> "setitem", k |-> IntV(7), v |-> gs(<<"x">>)]}
+              ELSE {})]
 
 SetCandsNow == IF Generic THEN GenSetCands(S) ELSE SetCands
 TreesNow    == IF Generic THEN GenTrees(S) ELSE Trees
